@@ -114,27 +114,33 @@ class FrequencyDomainSolution(CircuitSolution):
     one_sided: bool = field(default=True)
 
     def __post_init__(self):
-        self.w = np.array(frequency_components(self.circuit, self.w_max))
-        self._solutions = np.array([ComplexSolution(circuit=self.circuit, solver=self.solver, w=w, peak_values=True) for w in self.w])
+        self._one_sided_w = np.array(frequency_components(self.circuit, self.w_max))
+        self._solutions = [ComplexSolution(circuit=self.circuit, solver=self.solver, w=w, peak_values=True) for w in self._one_sided_w]
+        self.w = self._one_sided_w
         if not self.one_sided:
-            self.w = np.concatenate((-self.w[-1:0:-1], self.w))
-            self._solutions = 1/2*np.concatenate((np.conj(self._solutions[-1:0:-1]), self._solutions))
+            self.w = np.concatenate((-self._one_sided_w[self._one_sided_w > 0][::-1], self._one_sided_w))
+
+    def _spectrum(self, one_sided_values: np.ndarray) -> np.ndarray:
+        if self.one_sided:
+            return one_sided_values
+        is_ac = self._one_sided_w > 0
+        return np.concatenate((np.conj(one_sided_values[is_ac][::-1])/2, np.where(is_ac, one_sided_values/2, one_sided_values)))
 
     def get_voltage(self, component_id: str) -> FrequencyDomainSeries:
-        voltages = np.array([solution.get_voltage(component_id) for solution in self._solutions])
-        return np.array(self.w), voltages
+        voltages = np.array([solution.get_voltage(component_id) for solution in self._solutions], dtype=complex)
+        return np.array(self.w), self._spectrum(voltages)
 
     def get_current(self, component_id: str) -> FrequencyDomainSeries:
-        currents = np.array([solution.get_current(component_id) for solution in self._solutions])
-        return np.array(self.w), currents
+        currents = np.array([solution.get_current(component_id) for solution in self._solutions], dtype=complex)
+        return np.array(self.w), self._spectrum(currents)
 
     def get_potential(self, node_id: str) -> FrequencyDomainSeries:
-        potentials = np.array([solution.get_potential(node_id) for solution in self._solutions])
-        return np.array(self.w), potentials
+        potentials = np.array([solution.get_potential(node_id) for solution in self._solutions], dtype=complex)
+        return np.array(self.w), self._spectrum(potentials)
 
     def get_power(self, component_id: str) -> FrequencyDomainSeries:
-        power = np.array([solution.get_power(component_id) for solution in self._solutions])
-        return np.array(self.w), power
+        power = np.array([solution.get_power(component_id) for solution in self._solutions], dtype=complex)
+        return np.array(self.w), self._spectrum(power)
 
 @dataclass
 class TransientSolution(CircuitSolution):
